@@ -253,6 +253,7 @@ func runHarnesses(ld *Loaded, cfg *RunConfig, harnesses []string, workers int, m
 		queue = append(queue, WorkItem{Harness: h})
 	}
 	active := 0
+	violSeen := map[string]int{}
 	fnSet := map[string]bool{}
 	var firstErr error
 	stop := false
@@ -425,7 +426,16 @@ func runHarnesses(ld *Loaded, cfg *RunConfig, harnesses []string, workers int, m
 					sum.MaxSteps = rep.Steps
 				}
 				if len(rep.Violations) > 0 {
-					if len(sum.Violations) < 200 {
+					// keep up to three path reports per distinct (harness, kind, message)
+					keep := false
+					for _, v := range rep.Violations {
+						k := rep.Harness + "|" + v.Kind + "|" + v.Msg
+						if violSeen[k] < 3 {
+							violSeen[k]++
+							keep = true
+						}
+					}
+					if keep {
 						sum.Violations = append(sum.Violations, rep)
 					}
 				}
